@@ -555,7 +555,19 @@ pub fn classify_idempotence(src: &[u8], o: &Opts) -> String {
         if !fails(&cand, o, "idempotence") { return "idempotence:block-comment-before-first-condition-term".into(); }
     }
     let ob = observe(src, o);
-    format!("idempotence:valid-source:{}", diff_fingerprint(&ob.out1_text, &ob.out2_text))
+    let fp = diff_fingerprint(&ob.out1_text, &ob.out2_text);
+    if !fp.starts_with("whitespace-next-to-comment") && !fp.starts_with("comment-continuation") {
+        // the change is not next to a comment: is it nevertheless caused by one? (does the
+        // failure disappear when every comment is replaced by a space?)
+        let spans: Vec<std::ops::Range<usize>> = sig_spans(src).into_iter().filter(|(k, _)| *k == SyntaxKind::COMMENT).map(|(_, r)| r).collect();
+        if !spans.is_empty() {
+            let mut cand = vec![]; let mut at = 0;
+            for c in &spans { cand.extend_from_slice(&src[at..c.start]); cand.push(b' '); at = c.end; }
+            cand.extend_from_slice(&src[at..]);
+            if !has_syntax_errors(&cand) && !fails(&cand, o, "idempotence") { return "idempotence:valid-source:comment-elsewhere-changes-layout".into(); }
+        }
+    }
+    format!("idempotence:valid-source:{}", fp)
 }
 
 // ------------------------------------------------------------------ Coq printers
